@@ -97,6 +97,8 @@ pub fn gen(seed: u64, _idx: u64, tier: Tier) -> Scenario {
                 let mut sel: Option<i64> = None;
                 for i in 0..k {
                     if i > 0 && sel.is_none() && r.chance(1, 8) { let d = *r.pick(&dbs); sel = Some(d); sc.steps.push(Step::Send { c, a: vec![b("SELECT"), b(&format!("{}", d))], split: vec![] }); }
+                    // a queued SELECT of a database that does not exist is refused in its slot and changes nothing for the rest
+                    else if r.chance(1, 12) { sc.steps.push(Step::Send { c, a: vec![b("SELECT"), b(*r.pick(&["16", "99", "4096", "-1", "abc"]))], split: vec![] }); }
                     sc.steps.push(Step::Send { c, a: data_cmd(&mut r, &mut uniq, false), split: vec![] });
                 }
                 if r.chance(7, 8) { sc.steps.push(Step::Send { c, a: vec![b("EXEC")], split: vec![] }); if let Some(d) = sel { belief[c] = d; } } else { sc.steps.push(Step::Send { c, a: vec![b("DISCARD")], split: vec![] }); }
@@ -252,7 +254,7 @@ pub fn exec(sc: &Scenario) -> Outcome {
 pub static DEF: CheckDef = CheckDef {
     id: "C18", level: "exploration", gen, exec,
     nontrivial: |o| o.counters.get("cmds").copied().unwrap_or(0) >= 12,
-    rule: "one run = 2-4 connections moving among 2-4 of the 16 databases (usually incl. 0) and running every command family (strings, keys, lists, sets incl. multi-key algebra and SMOVE/RPOPLPUSH/RENAME/MGET/MSET, hashes, sorted sets, streams, DBSIZE/KEYS) on the same key names in each of them through every execution path: directly, queued in MULTI/EXEC (sometimes with a queued SELECT), through EVAL and EVALSHA of a pass-through script, and as BLPOP/BRPOP completed later while another connection first pushes to the same name in a different database and then in the waiter's; SELECT of invalid indexes (16, -1, non-numeric, overflow, padded); FLUSHDB / FLUSHALL (directly, in MULTI/EXEC, from a script); reconnects (fresh connections start in 0). The simulator derives the execution order from the transport seam and feeds it to a 16-database reference model with per-connection selection; oracle: every reply equals the model's for the database selected on that connection at that time, the canonical dump of all 16 databases equals the model after every turn (a script may only differ from the direct command inside its own database), a waiter is served only from its own database, and - independently of the model - no reply carries a value whose embedded tag names another database than the connection's; in a quarter to a third of the runs single reads / writes of the server on a client's socket are made to fail with EINTR, to come back empty-handed (EAGAIN, reads only) or to transfer only 1..100 bytes (fault injection at the libc boundary) - transient outcomes that must not change any reply or the dataset; non-trivial = at least 12 commands",
+    rule: "one run = 2-4 connections moving among 2-4 of the 16 databases (usually incl. 0) and running every command family (strings, keys, lists, sets incl. multi-key algebra and SMOVE/RPOPLPUSH/RENAME/MGET/MSET, hashes, sorted sets, streams, DBSIZE/KEYS) on the same key names in each of them through every execution path: directly, queued in MULTI/EXEC (sometimes with a queued SELECT, also of a non-existent database), through EVAL and EVALSHA of a pass-through script, and as BLPOP/BRPOP completed later while another connection first pushes to the same name in a different database and then in the waiter's; SELECT of invalid indexes (16, -1, non-numeric, overflow, padded); FLUSHDB / FLUSHALL (directly, in MULTI/EXEC, from a script); reconnects (fresh connections start in 0). The simulator derives the execution order from the transport seam and feeds it to a 16-database reference model with per-connection selection; oracle: every reply equals the model's for the database selected on that connection at that time, the canonical dump of all 16 databases equals the model after every turn (a script may only differ from the direct command inside its own database), a waiter is served only from its own database, and - independently of the model - no reply carries a value whose embedded tag names another database than the connection's; in a quarter to a third of the runs single reads / writes of the server on a client's socket are made to fail with EINTR, to come back empty-handed (EAGAIN, reads only) or to transfer only 1..100 bytes (fault injection at the libc boundary) - transient outcomes that must not change any reply or the dataset; non-trivial = at least 12 commands",
     quick_budget_s: 40.0, thorough_budget_s: 900.0, quick_max_runs: 1_000_000, thorough_max_runs: 100_000_000, exhaustive: false, exhaustive_after: |_| 0,
     real: REAL_WHOLE_SERVER, stub: STUB_WHOLE_SERVER, assumptions: ASSUME_COMMON,
 };
